@@ -147,6 +147,8 @@ fn run_b(case: &CaseB, record: Option<u64>) -> Result<Outcome, String> {
 /// A message marked "[driver]" is about RealDriver's own decisions (which device is ready, what an
 /// errno means): C10's business, not the byte format's.
 fn hybrid_label(en: &EnB, msg: &str) -> Option<&'static str> {
+  // counted, not judged (see worlde.rs)
+  if msg.starts_with("[partial-step]") { return None; }
   let driver_only = msg.starts_with("[driver]");
   // the real driver not telling the loop about the tablet switch means tablet mode is not entered "immediately"
   // ... and so does a tablet reader that loses, invents or garbles a switch event
